@@ -115,6 +115,11 @@ class Registry:
                 scan_expr(st, subvars)
 
         def scan_expr(node, subvars):
+            # comprehension generators over the sub-zones bind sub-zone variables too
+            subvars = set(subvars)
+            for n in ast.walk(node):
+                if isinstance(n, ast.comprehension) and isinstance(n.target, ast.Name) and _is_subzones_iter(n.iter, zp):
+                    subvars.add(n.target.id)
             # evaluation order within a statement: reads before the (single) define
             for n in ast.walk(node):
                 if isinstance(n, ast.Subscript) and isinstance(n.value, ast.Attribute) and n.value.attr == "targets" and isinstance(n.value.value, ast.Name):
@@ -174,22 +179,35 @@ def _is_subzones_iter(e: ast.AST, zp: str) -> bool:
 # =========================================================================================
 # symbolic exploration of the handlers
 # =========================================================================================
+RAISES = "raises"
+
+
 class HandlerExplorer:
+    """Evaluates a handler-like function (any function of the handlers' module taking a zone) for a zone of a given type under
+    a given assignment of the option flags.  Result: the set of registry entries certainly defined for that zone on every
+    normal exit (must-information), or RAISES when no path returns.  Child zones are explored per zone type."""
+
     def __init__(self, p: Program, r: Resolver, reg: Registry, handlers: Dict[str, FuncInfo], ctx: CheckContext, rule: str):
         self.p, self.r, self.reg, self.handlers, self.ctx, self.rule = p, r, reg, handlers, ctx, rule
         self.handler_set = set(handlers.values())
-        self.entry_fns = {}
+        self.module = next(iter(self.handler_set)).module
+        self.ztypes = [nm for nm in reg.zt.class_attrs if not nm.startswith("_")]
+        self.all_k = set(reg.tt.class_attrs)
         self.flags: List[str] = []
-        for h in self.handler_set:
-            for n in body_nodes(h):
-                if isinstance(n, ast.Attribute) and isinstance(n.value, ast.Attribute) and n.value.attr == "config" and n.attr.isupper():
-                    if n.attr not in self.flags:
-                        self.flags.append(n.attr)
-        self.memo: Dict[Tuple[FuncInfo, FrozenSet], Set[str]] = {}
+        for f in p.all_funcs:
+            if f.module is self.module and not isinstance(f.node, ast.Lambda):
+                for n in body_nodes(f):
+                    if isinstance(n, ast.Attribute) and isinstance(n.value, ast.Attribute) and n.value.attr == "config" and n.attr.isupper():
+                        if n.attr not in self.flags:
+                            self.flags.append(n.attr)
+        self.memo: Dict[tuple, object] = {}
+        self.assume: Dict[tuple, object] = {}
         self.findings: Dict[str, dict] = {}
-        self.paths = 0
         self.requirement_sites: Dict[str, bool] = {}
+        self.paths = 0
+        self.record = False
 
+    # ---------------------------------------------------------------- conditions
     def flag_value(self, test: ast.AST, env) -> Optional[bool]:
         if isinstance(test, ast.Attribute) and isinstance(test.value, ast.Attribute) and test.value.attr == "config":
             return env.get(test.attr)
@@ -198,42 +216,85 @@ class HandlerExplorer:
             return None if v is None else not v
         return None
 
-    def explore_all(self):
-        all_k = {nm for nm in self.reg.tt.class_attrs}
-        for combo in itertools.product([False, True], repeat=len(self.flags)):
-            env = dict(zip(self.flags, combo))
-            key = frozenset(env.items())
-            # greatest fix-point for must-define summaries of (mutually) recursive handlers
-            for h in self.handler_set:
-                self.memo[(h, key)] = set(all_k)
-            for _ in range(6):
-                changed = False
-                for h in self.handler_set:
-                    new = self.run_handler(h, env, record=False)
-                    if new != self.memo[(h, key)]:
-                        self.memo[(h, key)] = new
-                        changed = True
-                if not changed:
-                    break
-            for h in self.handler_set:
-                self.run_handler(h, env, record=True)
+    def subs_test(self, test: ast.AST, zp: str, st) -> Optional[bool]:
+        """polarity of a 'has sub-zones' test: True if the test is true when sub-zones exist, False if true when none exist"""
+        if isinstance(test, ast.Name) and test.id in st["bools"]:
+            return st["bools"][test.id]
+        if isinstance(test, ast.UnaryOp) and isinstance(test.op, ast.Not):
+            v = self.subs_test(test.operand, zp, st)
+            return None if v is None else not v
+        if isinstance(test, ast.Compare) and len(test.ops) == 1 and isinstance(test.left, ast.Call) and isinstance(test.left.func, ast.Name) \
+                and test.left.func.id == "len" and test.left.args and isinstance(test.comparators[0], ast.Constant) and test.comparators[0].value == 0:
+            a = test.left.args[0]
+            if isinstance(a, ast.Attribute) and a.attr == "subzones" and isinstance(a.value, ast.Name) and a.value.id == zp:
+                if isinstance(test.ops[0], (ast.Gt, ast.NotEq)):
+                    return True
+                if isinstance(test.ops[0], (ast.Eq, ast.LtE)):
+                    return False
+        if isinstance(test, ast.Attribute) and test.attr == "subzones" and isinstance(test.value, ast.Name) and test.value.id == zp:
+            return True
+        return None
 
-    def run_handler(self, h: FuncInfo, env: Dict[str, bool], record: bool) -> Set[str]:
-        zp = self.reg.zone_param(h) or (h.pos_params[0] if h.pos_params else None)
+    def ident_test(self, f: FuncInfo, test: ast.AST, st) -> Optional[Tuple[str, str]]:
+        """(zone variable, zone type member) for `v.identifier == ZoneType.X.value`"""
+        if isinstance(test, ast.Compare) and len(test.ops) == 1 and isinstance(test.ops[0], ast.Eq):
+            l, rr = test.left, test.comparators[0]
+            if isinstance(l, ast.Attribute) and l.attr == "identifier" and isinstance(l.value, ast.Name) and l.value.id in st["types"]:
+                m = _enum_member(self.r, f, rr, self.reg.zt)
+                if m and m[0] == "text":
+                    return l.value.id, m[1]
+                if m and m[0] == "member":
+                    # a text identifier never equals an enumeration member (reported by T4-FORM): the branch is dead
+                    return l.value.id, "<never>"
+        return None
+
+    # ---------------------------------------------------------------- evaluation
+    def eval_fn(self, g: FuncInfo, env: Dict[str, bool], ztype: Optional[str]):
+        key = (g, frozenset(env.items()), ztype)
+        if key in self.memo:
+            return self.memo[key]
+        if key in self._active:
+            return self.assume.get(key, set(self.all_k))     # greatest fix-point for recursive handlers
+        self._active.add(key)
+        zp = self.reg.zone_param(g) or (g.pos_params[0] if g.pos_params else None)
         if zp is None:
-            raise AnalysisError(f"{h.loc}: handler without a zone parameter")
-        exits: List[Set[str]] = []
-        self._exec(h, h.node.body, zp, env, {"self": set(), "sub": None, "has_subs": None}, exits, record)
+            raise AnalysisError(f"{g.loc}: handler-like function without a zone parameter")
+        exits: List[set] = []
+        st0 = {"defs": {zp: set()}, "types": {zp: ztype}, "sub": None, "has_subs": None, "bools": {}}
+        out = self._exec(g, g.node.body, zp, env, st0, exits)
+        if out is not None:
+            exits.append(set(out["defs"][zp]))
+            self.paths += 1
+        self._active.discard(key)
         if not exits:
-            return set(self.reg.tt.class_attrs)
-        out = set(exits[0])
-        for e in exits[1:]:
-            out &= e
+            res = RAISES
+        else:
+            res = set(exits[0])
+            for e in exits[1:]:
+                res &= e
+        self.memo[key] = res
+        return res
+
+    def _copy(self, st):
+        return {"defs": {k: set(v) for k, v in st["defs"].items()}, "types": dict(st["types"]), "sub": st["sub"], "has_subs": st["has_subs"],
+                "bools": dict(st["bools"])}
+
+    def _join(self, a, b):
+        if a is None:
+            return b
+        if b is None:
+            return a
+        out = self._copy(a)
+        for k in out["defs"]:
+            out["defs"][k] = a["defs"].get(k, set()) & b["defs"].get(k, set())
+        if a["sub"] is None or b["sub"] is None:
+            out["sub"] = a["sub"] if b["has_subs"] is False else (b["sub"] if a["has_subs"] is False else None)
+        else:
+            out["sub"] = {t: a["sub"].get(t, self.all_k) & b["sub"].get(t, self.all_k) for t in set(a["sub"]) | set(b["sub"])}
+        out["has_subs"] = a["has_subs"] if a["has_subs"] == b["has_subs"] else None
         return out
 
-    def _exec(self, h, stmts, zp, env, st, exits, record) -> Optional[dict]:
-        """returns the fall-through state or None"""
-        key = frozenset(env.items())
+    def _exec(self, g, stmts, zp, env, st, exits):
         for s in stmts:
             if st is None:
                 return None
@@ -241,117 +302,152 @@ class HandlerExplorer:
                 continue
             if isinstance(s, ast.AnnAssign) and s.value is None:
                 continue
+            if isinstance(s, ast.Assign) and len(s.targets) == 1 and isinstance(s.targets[0], ast.Name):
+                pol = self.subs_test(s.value, zp, st)
+                if pol is not None:
+                    st["bools"][s.targets[0].id] = pol
+                    continue
             if isinstance(s, ast.Return):
+                if isinstance(s.value, ast.Call):
+                    st = self._apply_call(g, s.value, zp, env, st)
+                    if st is None:
+                        return None
+                exits.append(set(st["defs"][zp]))
                 self.paths += 1
-                exits.append(set(st["self"]))
                 return None
             if isinstance(s, ast.Raise):
                 return None
             if isinstance(s, ast.If):
                 fv = self.flag_value(s.test, env)
                 if fv is not None:
-                    st = self._exec(h, s.body if fv else s.orelse, zp, env, st, exits, record)
+                    st = self._exec(g, s.body if fv else s.orelse, zp, env, st, exits)
                     continue
-                # len(zone.subzones) > 0
-                if _is_has_subzones(s.test, zp):
-                    a = self._exec(h, s.body, zp, env, dict(st, self=set(st["self"]), has_subs=True), exits, record)
-                    b = self._exec(h, s.orelse, zp, env, dict(st, self=set(st["self"]), has_subs=False), exits, record)
-                    st = _join_states(a, b)
+                pol = self.subs_test(s.test, zp, st)
+                if pol is not None:
+                    if st["has_subs"] is not None:
+                        truth = (st["has_subs"] == pol)
+                        st = self._exec(g, s.body if truth else s.orelse, zp, env, st, exits)
+                        continue
+                    a0, b0 = self._copy(st), self._copy(st)
+                    a0["has_subs"], b0["has_subs"] = pol, (not pol)
+                    a = self._exec(g, s.body, zp, env, a0, exits)
+                    b = self._exec(g, s.orelse, zp, env, b0, exits)
+                    st = self._join(a, b)
                     continue
-                raise AnalysisError(f"{h.module.relpath}:{s.lineno}: handler branch condition not understood: {ast.unparse(s.test)}")
+                it = self.ident_test(g, s.test, st)
+                if it is not None:
+                    var, member = it
+                    ty = st["types"].get(var)
+                    if ty is not None:
+                        st = self._exec(g, s.body if ty == member else s.orelse, zp, env, st, exits)
+                        continue
+                    if member == "<never>":
+                        st = self._exec(g, s.orelse, zp, env, st, exits)
+                        continue
+                    a0, b0 = self._copy(st), self._copy(st)
+                    a0["types"][var] = member
+                    a = self._exec(g, s.body, zp, env, a0, exits)
+                    b = self._exec(g, s.orelse, zp, env, b0, exits)
+                    st = self._join(a, b)
+                    continue
+                raise AnalysisError(f"{g.module.relpath}:{s.lineno}: handler branch condition not understood: {ast.unparse(s.test)}")
             if isinstance(s, ast.For) and isinstance(s.target, ast.Name) and _is_subzones_iter(s.iter, zp):
-                per_type = self._loop_body(h, s, env, record)
-                # ∀ child: K defined iff every non-raising branch defines it
-                st = dict(st, self=set(st["self"]), sub=per_type)
+                if st["has_subs"] is False:
+                    continue
+                per_type: Dict[str, set] = {}
+                for T in self.ztypes:
+                    cst = self._copy(st)
+                    v = s.target.id
+                    cst["defs"][v] = set()
+                    cst["types"][v] = T
+                    cex: List[set] = []
+                    out = self._exec_child(g, s.body, zp, v, env, cst)
+                    if out is not None:
+                        per_type[T] = out
+                st["sub"] = per_type
                 continue
             call = s.value if isinstance(s, (ast.Expr, ast.Assign)) and isinstance(s.value, ast.Call) else None
             if call is not None:
-                self._apply_call(h, call, zp, env, st, record)
+                st = self._apply_call(g, call, zp, env, st)
                 continue
-            raise AnalysisError(f"{h.module.relpath}:{s.lineno}: handler statement not understood: {norm_stmt(s)}")
-        if st is not None:
-            self.paths += 1
+            raise AnalysisError(f"{g.module.relpath}:{s.lineno}: handler statement not understood: {norm_stmt(s)}")
         return st
 
-    def _loop_body(self, h, loop: ast.For, env, record) -> Dict[str, Set[str]]:
-        """child zone type -> set of K certainly defined for that child after its branch"""
-        zv = loop.target.id
-        key = frozenset(env.items())
-        out: Dict[str, Set[str]] = {}
-        body = [s for s in loop.body if not (isinstance(s, ast.AnnAssign) and s.value is None)]
-        if len(body) == 1 and isinstance(body[0], ast.If) and _identifier_test(self.r, h, body[0].test, zv, self.reg.zt):
-            node = body[0]
-            while True:
-                m = _identifier_test(self.r, h, node.test, zv, self.reg.zt)
-                if m is None:
-                    raise AnalysisError(f"{h.module.relpath}:{node.lineno}: child dispatch test not understood: {ast.unparse(node.test)}")
-                out[m] = self._child_branch(h, node.body, zv, env, record)
-                if len(node.orelse) == 1 and isinstance(node.orelse[0], ast.If):
-                    node = node.orelse[0]
-                    continue
-                if node.orelse and not all(isinstance(x, ast.Raise) for x in node.orelse):
-                    out["<other>"] = self._child_branch(h, node.orelse, zv, env, record)
-                break
-        else:
-            out["<any>"] = self._child_branch(h, body, zv, env, record)
-        return out
+    def _exec_child(self, g, stmts, zp, v, env, st) -> Optional[set]:
+        """body of the loop over the sub-zones for a child of the type recorded in st; returns the registry entries certainly
+        defined for the child, or None if this child type makes the body raise"""
+        exits: List[set] = []
+        out = self._exec(g, stmts, zp, env, st, exits)
+        if out is None:
+            return None
+        return set(out["defs"].get(v, set()))
 
-    def _child_branch(self, h, stmts, zv, env, record) -> Set[str]:
-        key = frozenset(env.items())
-        defined: Set[str] = set()
-        for s in stmts:
-            if isinstance(s, ast.If):
-                fv = self.flag_value(s.test, env)
-                if fv is None:
-                    raise AnalysisError(f"{h.module.relpath}:{s.lineno}: condition in child branch not understood: {ast.unparse(s.test)}")
-                defined |= self._child_branch(h, s.body if fv else s.orelse, zv, env, record)
-                continue
-            if isinstance(s, ast.Raise):
-                return set(self.reg.tt.class_attrs)     # path leaves; imposes nothing
-            call = s.value if isinstance(s, (ast.Expr, ast.Assign)) and isinstance(s.value, ast.Call) else None
-            if call is None:
-                raise AnalysisError(f"{h.module.relpath}:{s.lineno}: child-branch statement not understood: {norm_stmt(s)}")
-            for t in self.r.resolve_call(h, call):
-                if isinstance(t, FuncInfo) and call.args and isinstance(call.args[0], ast.Name) and call.args[0].id == zv:
-                    if t in self.handler_set:
-                        defined |= self.memo[(t, key)]
-                    else:
-                        sm = self.reg.summary(t)
-                        defined |= set(sm.defines)
-        return defined
-
-    def _apply_call(self, h, call, zp, env, st, record):
-        key = frozenset(env.items())
-        for t in self.r.resolve_call(h, call):
-            if not isinstance(t, FuncInfo):
-                continue
-            on_self = bool(call.args) and isinstance(call.args[0], ast.Name) and call.args[0].id == zp
-            if not on_self:
-                continue
-            if t in self.handler_set:
-                st["self"] |= self.memo[(t, key)]
+    def _apply_call(self, g, call: ast.Call, zp, env, st):
+        targets = [t for t in self.r.resolve_call(g, call) if isinstance(t, FuncInfo)]
+        arg0 = call.args[0] if call.args else None
+        var = arg0.id if isinstance(arg0, ast.Name) and arg0.id in st["types"] else None
+        if var is None or not targets:
+            return st
+        for t in targets:
+            if t.module is self.module:
+                res = self.eval_fn(t, env, st["types"].get(var))
+                if res == RAISES:
+                    return None
+                st["defs"][var] |= res
                 continue
             sm = self.reg.summary(t)
             for who, k, node in sm.requires:
-                site = f"{h.qualname}:{t.name} requires {k}({'zone' if who == 'self' else 'every sub-zone'})"
+                site = f"{g.qualname}:{t.name} requires {k}({'zone' if who == 'self' else 'every sub-zone'})"
                 if who == "self":
-                    ok = k in st["self"]
-                    if record:
-                        self._req(site, ok, h, call, env, f"{t.name}(zone) reads the zone's own '{self._kval(k)}' record before it is computed")
-                else:
-                    per_type = st.get("sub")
+                    ok = k in st["defs"][var]
+                    self._req(site, ok, g, call, env, f"{t.name}(zone) reads the zone's own '{self._kval(k)}' record before it is computed")
+                elif var == zp:
+                    if st["has_subs"] is False:
+                        continue
+                    per_type = st["sub"]
                     if per_type is None:
-                        ok = False
-                        if record:
-                            self._req(site, ok, h, call, env, f"{t.name}(zone) reads every sub-zone's '{self._kval(k)}' record but no loop over the sub-zones precedes it")
+                        self._req(site, False, g, call, env, f"{t.name}(zone) reads every sub-zone's '{self._kval(k)}' record but no loop over the sub-zones precedes it")
                         continue
                     for zt, defs in sorted(per_type.items()):
-                        ok = k in defs
-                        if record:
-                            self._req(site + f" [child type {zt}]", ok, h, call, env,
-                                      f"{t.name}(zone) reads the '{self._kval(k)}' record of every sub-zone, but a sub-zone of type {self._zval(zt)} gets none on this path")
+                        self._req(site + f" [child type {zt}]", k in defs, g, call, env,
+                                  f"{t.name}(zone) reads the '{self._kval(k)}' record of every sub-zone, but a sub-zone of type {self._zval(zt)} gets none on this path")
             for k in sm.defines:
-                st["self"].add(k)
+                st["defs"][var].add(k)
+        return st
+
+    def explore_all(self):
+        table_types = {}
+        main = self.module
+        b = main.ns.get("_TARGET_HANDLERS")
+        if b is not None and b.kind == "var" and isinstance(b.target[2], ast.Dict):
+            for k, v in zip(b.target[2].keys, b.target[2].values):
+                node = k.value if isinstance(k, ast.Attribute) and k.attr == "value" else k
+                bb = self.p.resolve_attr_chain(main, node)
+                vb = self.p.resolve_attr_chain(main, v)
+                if bb is not None and bb.kind == "classattr" and vb is not None and vb.kind == "func":
+                    table_types[vb.target] = bb.target[1]
+        for combo in itertools.product([False, True], repeat=len(self.flags)):
+            env = dict(zip(self.flags, combo))
+            for rnd in range(4):
+                self.memo = {}
+                self._active = set()
+                self.record = False
+                for h in self.handler_set:
+                    self.eval_fn(h, env, table_types.get(h))
+                new_assume = dict(self.memo)
+                if new_assume == self.assume_env.get(frozenset(env.items())):
+                    break
+                self.assume_env[frozenset(env.items())] = new_assume
+                self.assume = new_assume
+            # final recording pass with the stable assumptions
+            self.memo = {}
+            self._active = set()
+            self.record = True
+            for h in self.handler_set:
+                self.eval_fn(h, env, table_types.get(h))
+
+    assume_env: Dict[frozenset, dict] = {}
+    _active: set = set()
 
     def _kval(self, k):
         v = self.reg.tt.class_attrs.get(k)
@@ -362,38 +458,18 @@ class HandlerExplorer:
         return f"'{v.value}'" if isinstance(v, ast.Constant) else z
 
     def _req(self, site: str, ok: bool, h: FuncInfo, call: ast.Call, env, msg: str):
+        if not self.record:
+            return
         prev = self.requirement_sites.get(site, True)
         self.requirement_sites[site] = prev and ok
         if not ok:
             d = self.findings.setdefault(site, {"h": h, "call": call, "msg": msg, "envs": []})
-            d["envs"].append(dict(env))
-
-
-def _join_states(a, b):
-    if a is None:
-        return b
-    if b is None:
-        return a
-    sub = a["sub"] if a["sub"] is not None else b["sub"]
-    return {"self": a["self"] & b["self"], "sub": sub, "has_subs": None}
+            if dict(env) not in d["envs"]:
+                d["envs"].append(dict(env))
 
 
 def _is_has_subzones(test: ast.AST, zp: str) -> bool:
-    # len(zone.subzones) > 0
-    if isinstance(test, ast.Compare) and len(test.ops) == 1 and isinstance(test.ops[0], ast.Gt) and isinstance(test.left, ast.Call) \
-            and isinstance(test.left.func, ast.Name) and test.left.func.id == "len" and test.left.args:
-        a = test.left.args[0]
-        return isinstance(a, ast.Attribute) and a.attr == "subzones" and isinstance(a.value, ast.Name) and a.value.id == zp
     return False
-
-
-def _identifier_test(r: Resolver, f: FuncInfo, test: ast.AST, zv: str, zt: ClassInfo) -> Optional[str]:
-    if isinstance(test, ast.Compare) and len(test.ops) == 1 and isinstance(test.ops[0], ast.Eq):
-        l, rr = test.left, test.comparators[0]
-        if isinstance(l, ast.Attribute) and l.attr == "identifier" and isinstance(l.value, ast.Name) and l.value.id == zv:
-            m = _enum_member(r, f, rr, zt)
-            return m[1] if m else None
-    return None
 
 
 def check_order(ctx: CheckContext, p: Program, r: Resolver, rule: str = "ORDER"):
